@@ -141,6 +141,11 @@ func typeToks(t string) []Tok {
 func (g *G) deeper() func() { g.depth++; return func() { g.depth-- } }
 
 func (g *G) leafValue() X {
+	if g.F.KeywordValues && g.chance(4, "kwvalue") {
+		g.use("keyword_value")
+		w := rapid.SampledFrom([]string{"CURRENT_DATE", "CURRENT_TIMESTAMP", "CURRENT_USER", "CURRENT_TIME"}).Draw(g.T, "kwvaluename")
+		return X{sym(w), &ast.Identifier{Name: w}, PPrimary}
+	}
 	switch g.intn(10, "leafv") {
 	case 0, 1, 2:
 		return g.colRef()
@@ -835,13 +840,15 @@ func (g *G) tuple(n int) X {
 
 func (g *G) in() X {
 	g.use("in")
-	l := g.cmpOperand(false)
+	var l X
 	width := 0
 	if !g.F.NoTupleIn && g.depth < g.F.MaxDepth && g.chance(15, "tuplein") {
 		// (a, b) IN ((1, 2), (3, 4)) / (a, b) IN (SELECT ...)
 		g.use("tuple_in")
 		width = 2 + g.intn(2, "tuplewidth")
 		l = g.tuple(width)
+	} else {
+		l = g.cmpOperand(false)
 	}
 	not := g.chance(40, "notin")
 	t := l.T
@@ -926,6 +933,7 @@ func (g *G) quantified() X {
 // are stored as written, so they are emitted as fixed-case tokens.
 func (g *G) matchAgainst() X {
 	g.use("match_against")
+	g.Names.Functions["MATCH"] = true // written as a call; AGAINST is a keyword of the predicate
 	n := 1 + g.intn(2, "nmatchcols")
 	var ts [][]Tok
 	var ns []ast.Expression
